@@ -231,7 +231,7 @@ pub fn run(ctx: &Ctx) -> Report {
     let hi = 720 / step;
     let span = (hi - lo + 1) as usize;
     let ctors = [Ctor::Radians, Ctor::Degrees, Ctor::UpdateRange];
-    let shifts = [0.0, std::f64::consts::SQRT_2 * 1e-3, -std::f64::consts::E * 1e-3];
+    let shifts = [0.0, std::f64::consts::SQRT_2 * 1e-3, -std::f64::consts::E * 1e-3, std::f64::consts::PI * 1e-2, -1.618033988749895e-2, 0.5772156649015329e-4];
     let sizes = [ctors.len(), span, span];
     let n = par::product(&sizes);
     let mut rep = par::run(n, |idx, r| {
@@ -254,7 +254,7 @@ pub fn run(ctx: &Ctx) -> Report {
             for ai in 0..span {
                 let a = ((lo + ai as i64) * step) as f64;
                 // shifted angles on a third of the lattice, rotating
-                let shift = if (ai + ix[1] + ix[2]) % 3 == 0 { shifts[(ai / 3) % 3] } else { 0.0 };
+                let shift = if (ai + ix[1] + ix[2]) % 3 == 0 { shifts[(ai / 3 + ix[1]) % 6] } else { 0.0 };
                 r.transitions += 1;
                 match decide(ctor, joint, f, t, a, shift, others) {
                     Ok(None) => r.skipped_boundary += 1,
@@ -272,7 +272,7 @@ pub fn run(ctx: &Ctx) -> Report {
     op_sequences(&mut rep);
     rep.traces_validated = rep.transitions;
     rep.rule = format!(
-        "(from,to) on the {step}-degree lattice of [-720,720]^2 x angle on the same lattice (a third shifted by sqrt2*1e-3 / -e*1e-3 rad) x \
+        "(from,to) on the {step}-degree lattice of [-720,720]^2 x angle on the same lattice (a third shifted by one of sqrt2*1e-3, -e*1e-3, pi*1e-2, -phi*1e-2, gamma*1e-4 rad) x \
          constructors {{new, from_degrees, update_range}} x neighbours {{wide range, from==to}}; oracle = arc membership by definition; \
          lattice points on an arc end are skipped_boundary except the exactly decidable family from=0; reversed ranges with from = to (mod 360) \
          are ambiguous by the statement and skipped; plus centre-accepted, filter==pointwise, and constructor/update_range sequences to depth 3; \
